@@ -260,6 +260,9 @@ fn entry_facts(entry: &dyn Entry, strip: &Path, given: &Path) -> Value {
         // the std::path operations the statement of C14 names, evaluated here
         "joined_eq_path": root.join(rel) == entry.path(),
         "rel_components": rel.components().count(),
+        // the raw bytes, from which the specification (PathAlg.tla) derives the same facts by itself
+        "path_b": crate::pathalg::bytes_of(entry.path()), "root_b": crate::pathalg::bytes_of(root),
+        "rel_b": crate::pathalg::bytes_of(rel), "given_b": crate::pathalg::bytes_of(given),
     })
 }
 
